@@ -42,13 +42,13 @@ Proof. exact WakeThm.no_wake_up_is_lost. Qed.
 Print Assumptions C01_no_wake_up_is_lost.
 
 Example C01_h11_without_the_recheck :
-  let s := fold_left (Wake.step_with false Wake.wake_ops)
+  let s := fold_left (Wake.step_with false true Wake.wake_ops)
              [Wake.Mgr; Wake.SubmitBegin; Wake.SubStep; Wake.SubStep; Wake.SubStep; Wake.Cancel; Wake.Shutdown; Wake.Mgr; Wake.Mgr; Wake.Mgr; Wake.Mgr; Wake.Mgr] Wake.ws0 in
   Wake.asleep_for_good s = true /\ Wake.shut s = true.
 Proof. vm_compute. auto. Qed.
 (* ... and so does a submit() that writes the wake-up byte before it has published the work id *)
 Example C01_wake_up_before_publishing :
-  let s := fold_left (Wake.step_with true [PoolLib.SWakeup; PoolLib.SAddPending; PoolLib.SPutWorkId])
+  let s := fold_left (Wake.step_with true true [PoolLib.SWakeup; PoolLib.SAddPending; PoolLib.SPutWorkId])
              [Wake.Mgr; Wake.SubmitBegin; Wake.SubStep; Wake.Mgr; Wake.Mgr; Wake.Mgr; Wake.Mgr; Wake.Mgr; Wake.SubStep; Wake.SubStep] Wake.ws0 in
   Wake.asleep_for_good s = true /\ Wake.in_table s = 1.
 Proof. vm_compute. auto. Qed.
